@@ -13,9 +13,10 @@ Section StepsProof.
     = (fst (encoder_data E st dev p rx created now), acc ++ snd (encoder_data E st dev p rx created now) ++ fin).
   Proof.
     intros Hf. unfold enc_data_prog, encoder_data.
-    destruct (encode_message E (d_nwkskey dev) (d_appskey dev) (downlink_frame dev p)) as [buf|e|]; cbn [prun fst snd app]; try reflexivity.
-    destruct fuel as [|[|[|fuel]]]; try lia. cbn [prun exec]. rewrite app_nil_r.
-    destruct (l_update_device_state _ _) as [st2 [e|]]; cbn [prun fst snd app]; [now rewrite app_nil_r|].
+    destruct (encode (downlink_frame dev p 0)); cbn [prun fst snd app]; try reflexivity.
+    destruct fuel as [|[|[|fuel]]]; try lia. cbn [prun exec].
+    destruct (l_next_fdn st) as [st1 [cn|]]; cbn [prun fst snd app]; rewrite ?app_nil_r; [|reflexivity].
+    destruct (encode_message E (d_nwkskey dev) (d_appskey dev) (downlink_frame dev p cn)) as [buf|e|]; cbn [prun exec fst snd app]; try reflexivity.
     rewrite app_nil_r. destruct (length buf =? 0)%nat; cbn [prun exec fst snd app]; [reflexivity|]. now rewrite <- app_assoc.
   Qed.
   Lemma run_enc_join fuel st dev j rx fin acc : (2 <= fuel)%nat ->
@@ -94,7 +95,9 @@ Section StepsProof.
       rewrite run_queue by lia. reflexivity. }
     destruct (d_fup dev <=? fcnt f).
     - destruct fuel as [|fuel]; try lia. cbn [prun exec app].
-      destruct (l_update_device_state st _) as [st1 [e|]] eqn:Eu; cbn [prun app]; [apply uds_fail in Eu; now subst|]. apply Body. lia.
+      destruct (l_advance_fup st _ _ _) as [st1 [e|]] eqn:Eu; cbn [prun app].
+      + apply adv_fail in Eu. destruct Eu as [-> ->]. destruct (d_relaxed dev); [apply Body; lia | reflexivity].
+      + apply Body. lia.
     - apply Body. lia.
   Qed.
 
@@ -210,6 +213,7 @@ Section StepsProof.
     Hypothesis Hrow0 : ds_row st0 = Some r0.
     Hypothesis Hstrict : d_relaxed r0 = false.
     Hypothesis Hfc : fcnt f < 65535.
+    Hypothesis E_len : forall k b, length (E k b) = 16%nat.
 
     (* the inbox holds at most one more row than before, and if it does the stored counter is past the frame's *)
     Definition upinv (st : dstate) : Prop :=
@@ -251,34 +255,40 @@ Section StepsProof.
         split; [exact F|]. split; [congruence|]. exists r'. rewrite A, B. tauto.
     Qed.
 
+    (* reserving the downlink counter keeps the uplink invariant *)
+    Lemma next_keeps st st1 c : upinv st -> l_next_fdn st = (st1, Some c) ->
+      upinv st1 /\ exists r1, ds_row st1 = Some r1 /\ d_fdn r1 = (c + 1) mod 65536.
+    Proof.
+      intros (Hfb & Hn & r' & Hr & Hs & Hle & Hin) U.
+      apply next_row in U. destruct U as (rr & R0 & Hc & R1 & R2 & R3 & R4 & R5). rewrite Hr in R0. injection R0 as <-.
+      split.
+      - split; [unfold fb_down in *; now rewrite R5|]. split; [congruence|]. eexists. split; [exact R1|]. cbn [d_fup].
+        split; [unfold same_session in *; cbn; tauto|]. split; [exact Hle|]. rewrite R2. exact Hin.
+      - eexists. split; [exact R1|]. cbn [d_fdn]. now subst c.
+    Qed.
+
     (* the encoder, working on a snapshot whose uplink counter is already past the frame's *)
     Lemma always_enc_data st dev p rx created now fin :
       upinv st -> fcnt f < d_fup dev -> d_fup r0 <= d_fup dev ->
       always upinv emit_ok st (enc_data_prog E dev p rx created now fin).
     Proof.
       intros Hinv Hd1 Hd2. unfold enc_data_prog.
-      destruct (encode_message E (d_nwkskey dev) (d_appskey dev) (downlink_frame dev p)) as [buf|e|]; cbn [always]; try tauto.
-      split; [exact Hinv|]. split; [exact I|].
-      assert (Hinv1 : upinv (l_set_sent_time st created now (d_fup dev))) by (apply (benign_keeps st (SSetSentTime created now (d_fup dev))); auto).
-      assert (Tail : forall st1, upinv st1 ->
-        always upinv emit_ok st1
-          (Do (SUpdateState (set_counters dev (d_fup dev) ((d_fdn dev + 1) mod 65536) (d_keywarn dev))) (fun r =>
-             match r with
-             | XErr None => if (length buf =? 0)%nat then Halt fin
-                            else Do (SEmit {| dl_raw := buf; dl_radio := rx_radio rx; dl_gw := rx_gw rx; dl_rx1delay := 1; dl_eui := d_eui dev |} (d_fdn dev)) (fun _ => Halt fin)
-             | _ => Halt fin end))).
-      { intros st1 H1. cbn [always]. split; [exact H1|]. split; [exact I|]. split; [|intros _; cbn; tauto].
-        cbn [exec]. destruct (l_update_device_state st1 _) as [st2 [e|]] eqn:U.
-        - apply uds_fail in U. subst st2. cbn. tauto.
-        - apply uds_row in U. destruct U as (r1 & R0 & R1 & R2 & R3 & R4 & R5).
-          destruct H1 as (Hfb & Hn & r' & Hr & Hs & Hle & Hin). rewrite Hr in R0. injection R0 as <-.
-          assert (H2 : upinv st2).
-          { split; [unfold fb_down in *; now rewrite R5|]. split; [congruence|]. eexists. split; [exact R1|]. cbn.
-            split; [unfold same_session in *; cbn; tauto|]. split; [exact Hd2|]. rewrite R2. destruct Hin as [Hi|[Hi _]]; [now left | right; now split]. }
-          destruct (length buf =? 0)%nat; cbn [always]; [tauto|]. split; [exact H2|]. split.
-          + cbn. eexists. split; [exact R1|]. reflexivity.
-          + split; [cbn; tauto | intros Hc; discriminate]. }
-      split; [apply Tail, Hinv1 | intros _; apply Tail, Hinv].
+      destruct (encode (downlink_frame dev p 0)); cbn [always]; try tauto.
+      split; [exact Hinv|]. split; [exact I|]. split; [|intros _; cbn; tauto].
+      cbn [exec]. destruct (l_next_fdn st) as [st1 [cn|]] eqn:U.
+      2:{ apply next_none in U. destruct U as [-> _]. cbn. tauto. }
+      destruct (next_keeps st st1 cn Hinv U) as (H1 & r1 & R1 & F1).
+      destruct (encode_message E (d_nwkskey dev) (d_appskey dev) (downlink_frame dev p cn)) as [buf|e|]; cbn [always]; try tauto.
+      split; [exact H1|]. split; [exact I|].
+      assert (H2 : upinv (l_set_sent_time st1 created now (d_fup dev))) by (apply (benign_keeps st1 (SSetSentTime created now (d_fup dev))); auto).
+      assert (Tail : forall st2, upinv st2 -> ds_row st2 = ds_row st1 ->
+        always upinv emit_ok st2
+          (if (length buf =? 0)%nat then Halt fin
+           else Do (SEmit {| dl_raw := buf; dl_radio := rx_radio rx; dl_gw := rx_gw rx; dl_rx1delay := 1; dl_eui := d_eui dev |} cn) (fun _ => Halt fin))).
+      { intros st2 Hu Hrow. destruct (length buf =? 0)%nat; cbn [always]; [tauto|]. split; [exact Hu|]. split.
+        - cbn. exists r1. split; [now rewrite Hrow | exact F1].
+        - split; [cbn; tauto | intros Hc; discriminate]. }
+      split; [apply Tail; [exact H2 | reflexivity] | intros _; apply Tail; [exact H1 | reflexivity]].
     Qed.
 
     Lemma always_send st dev rx created now fin :
@@ -352,12 +362,12 @@ Section StepsProof.
       assert (Hd1 : d_fup dev1 = fcnt f + 1) by (cbn; rewrite N.mod_small; lia).
       apply N.leb_le in Hle. change (d_fup dev) with (d_fup r0) in Hle.
       cbn [always]. split; [exact H0|]. split; [exact I|]. split; [|intros _; cbn; tauto].
-      cbn [exec]. destruct (l_update_device_state st0 dev1) as [st1 [e|]] eqn:U.
-      { apply uds_fail in U. subst st1. cbn. tauto. }
-      apply uds_row in U. destruct U as (rr & R0 & R1 & R2 & R3 & R4 & R5). rewrite Hrow0 in R0. injection R0 as <-.
+      cbn [exec]. destruct (l_advance_fup st0 _ _ _) as [st1 [e|]] eqn:U.
+      { apply adv_fail in U. destruct U as [-> ->]. change (d_relaxed dev) with (d_relaxed r0). rewrite Hstrict. cbn. tauto. }
+      apply adv_row in U. destruct U as (rr & R0 & _ & R1 & R2 & R3 & R4 & R5). rewrite Hrow0 in R0. injection R0 as <-.
       assert (H1 : upinv st1).
       { split; [unfold fb_down in *; now rewrite R5|]. split; [exact R4|]. eexists. split; [exact R1|].
-        split; [unfold same_session; cbn; tauto|]. split; [cbn [d_fup]; rewrite Hd1; lia | left; exact R2]. }
+        split; [unfold same_session; cbn; tauto|]. split; [cbn [d_fup]; rewrite N.mod_small by lia; lia | left; exact R2]. }
       cbn [always]. split; [exact H1|]. split; [exact I|]. split; [|intros _; cbn; tauto].
       cbn [exec]. destruct (l_create_upstream st1 _) as [st2 [e|]] eqn:C.
       { assert (st2 = st1) by (unfold l_create_upstream in C; destruct (existsb _ _); inversion C; reflexivity). subst. cbn. tauto. }
@@ -366,7 +376,7 @@ Section StepsProof.
       { unfold l_create_upstream in C. destruct (existsb _ _); [discriminate|]. injection C as <-.
         destruct H1 as (F1 & N1 & r' & Hr' & S1 & L1 & _). split; [exact F1|]. split; [exact N1|]. exists r'. split; [exact Hr'|].
         split; [exact S1|]. split; [exact L1|]. right. split; [eexists; cbn; rewrite R2; reflexivity|].
-        rewrite R1 in Hr'. injection Hr' as <-. cbn [d_fup]. change (fcnt f < d_fup dev1). rewrite Hd1. lia. }
+        rewrite R1 in Hr'. injection Hr' as <-. cbn [d_fup]. rewrite N.mod_small by lia. lia. }
       cbn [always]. split; [exact H2|]. split; [exact I|]. split; [|intros _; cbn; tauto].
       cbn [exec]. destruct (has_app apps (d_appeui dev1)); [|cbn; tauto].
       apply always_queue; [exact H2 | rewrite Hd1; lia | rewrite Hd1; lia].
@@ -385,7 +395,7 @@ Section StepsProof.
       destruct Hinv as (_ & _ & r' & Hr & Hs & Hle & Hin).
       assert (Hr1 : ds_row st1 = Some r') by exact Hr.
       assert (Hfb1 : fb_down st1) by (unfold fb_down, st1, recover; cbn; exact I).
-      destruct (l_uplink_summary E D apps st1 f rx' n' now' r' Hr1 Hfb1 Hd) as (r'' & _ & _ & _ & _ & Hstale & _ & Hin2 & _).
+      destruct (l_uplink_summary E D E_len apps st1 f rx' n' now' r' Hr1 Hfb1 Hd) as (r'' & _ & _ & _ & _ & Hstale & _ & Hin2 & _).
       fold st2 in Hstale, Hin2. change (ds_inbox st1) with (ds_inbox (fst (prunf apps fails 0 fuel st0 (uplink_prog E D f rx n now) []))) in *.
       destruct Hin as [Hsame | [[m Hm] Hpast]].
       - rewrite Hsame in Hin2. destruct Hin2 as [-> | (_ & [m ->] & _)]; [lia | rewrite app_length; cbn; lia].
@@ -415,49 +425,63 @@ Section StepsProof.
       split; [now apply benign_keeps|]. exists r'. rewrite A. tauto.
     Qed.
 
+    (* before the counter is reserved: nothing has left and the stored counter is the old one *)
+    Definition dninv0 (st : dstate) (acc : list out) : Prop :=
+      upinv st /\ exists r', ds_row st = Some r' /\ downs acc = [] /\ d_fdn r' = d_fdn r0.
+    Lemma dn0 st acc : dninv0 st acc -> dninv st acc.
+    Proof. intros (Hu & r' & Hr & Ha & Hd). split; [exact Hu|]. exists r'. split; [exact Hr | left; now split]. Qed.
+    Lemma benign_keepsA0 st o acc : benign o = true -> dninv0 st acc ->
+      dninv0 (fst (fst (exec apps st o))) (acc ++ snd (exec apps st o)).
+    Proof.
+      intros Hb (Hu & r' & Hr & Hd). destruct (benign_row st o Hb) as [A B]. rewrite B, app_nil_r.
+      split; [now apply benign_keeps|]. exists r'. rewrite A. tauto.
+    Qed.
+
     Lemma alwaysA_enc_data_dn st dev p rx created now fin acc :
-      dninv st acc -> downs fin = [] -> fcnt f < d_fup dev -> d_fup r0 <= d_fup dev -> d_fdn dev = d_fdn r0 ->
+      dninv0 st acc -> downs fin = [] -> fcnt f < d_fup dev -> d_fup r0 <= d_fup dev -> d_fdn dev = d_fdn r0 ->
       alwaysA dninv st (enc_data_prog E dev p rx created now fin) acc.
     Proof.
       intros Hinv Hfin Hd1 Hd2 Hd3. unfold enc_data_prog.
       assert (Fin : forall st' a, dninv st' a -> dninv st' (a ++ fin)).
       { intros st' a (Hu & r' & Hr & Hd). split; [exact Hu|]. exists r'. split; [exact Hr|]. rewrite downs_app, Hfin, app_nil_r. exact Hd. }
-      destruct (encode_message E (d_nwkskey dev) (d_appskey dev) (downlink_frame dev p)) as [buf|e|]; cbn [alwaysA]; try (split; [exact Hinv | now apply Fin]).
-      split; [exact Hinv|].
-      pose proof (benign_keepsA st (SSetSentTime created now (d_fup dev)) acc eq_refl Hinv) as Hinv1. cbn [exec fst snd] in Hinv1. rewrite app_nil_r in Hinv1.
-      assert (Tail : forall st1, dninv st1 acc ->
-        alwaysA dninv st1
-          (Do (SUpdateState (set_counters dev (d_fup dev) ((d_fdn dev + 1) mod 65536) (d_keywarn dev))) (fun r =>
-             match r with
-             | XErr None => if (length buf =? 0)%nat then Halt fin
-                            else Do (SEmit {| dl_raw := buf; dl_radio := rx_radio rx; dl_gw := rx_gw rx; dl_rx1delay := 1; dl_eui := d_eui dev |} (d_fdn dev)) (fun _ => Halt fin)
-             | _ => Halt fin end)) acc).
-      { intros st1 H1. cbn [alwaysA]. split; [exact H1|]. split; [|intros _; cbn; split; [exact H1 | now apply Fin]].
-        cbn [exec]. destruct (l_update_device_state st1 _) as [st2 [e|]] eqn:U.
-        - apply uds_fail in U. subst st2. cbn. rewrite app_nil_r. split; [exact H1 | now apply Fin].
-        - pose proof U as U'. apply uds_row in U. destruct U as (r1 & R0 & R1 & R2 & R3 & R4 & R5).
-          destruct H1 as ((Hfb & Hn & r' & Hr & Hs & Hle & Hin) & _). rewrite Hr in R0. injection R0 as <-.
-          assert (H2 : forall a, dninv st2 a).
-          { intros a. split.
-            - split; [unfold fb_down in *; now rewrite R5|]. split; [congruence|]. eexists. split; [exact R1|]. cbn.
-              split; [unfold same_session in *; cbn; tauto|]. split; [exact Hd2|]. rewrite R2. destruct Hin as [Hi|[Hi _]]; [now left | right; now split].
-            - eexists. split; [exact R1|]. right. cbn. now rewrite Hd3. }
-          rewrite app_nil_r. destruct (length buf =? 0)%nat; cbn [alwaysA]; [split; apply H2|].
-          split; [apply H2|]. split; [cbn; split; apply H2 | intros Hc; discriminate]. }
-      cbn [exec]. rewrite app_nil_r. split; [apply Tail, Hinv1 | intros _; apply Tail, Hinv].
+      pose proof (dn0 _ _ Hinv) as HinvD.
+      destruct (encode (downlink_frame dev p 0)); cbn [alwaysA]; try (split; [exact HinvD | now apply Fin]).
+      split; [exact HinvD|]. split; [|intros _; cbn; split; [exact HinvD | now apply Fin]].
+      cbn [exec]. destruct (l_next_fdn st) as [st1 [cn|]] eqn:U; rewrite ?app_nil_r.
+      2:{ apply next_none in U. destruct U as [-> _]. cbn. split; [exact HinvD | now apply Fin]. }
+      destruct Hinv as (Hu & r' & Hr & Ha & Hf0).
+      destruct (next_keeps st st1 cn Hu U) as (U1 & r1 & R1 & F1).
+      assert (Hcn : cn = d_fdn r0).
+      { apply next_row in U. destruct U as (rr & R0 & Hc & _). rewrite Hr in R0. injection R0 as <-. congruence. }
+      subst cn.
+      assert (H1 : forall st2 a2, upinv st2 -> ds_row st2 = ds_row st1 -> dninv st2 a2).
+      { intros st2 a2 Hu2 Hrow. split; [exact Hu2|]. exists r1. split; [now rewrite Hrow | right; exact F1]. }
+      destruct (encode_message E (d_nwkskey dev) (d_appskey dev) (downlink_frame dev p (d_fdn r0))) as [buf|e|]; cbn [alwaysA];
+        try (split; apply H1; [exact U1 | reflexivity | exact U1 | reflexivity]).
+      split; [apply H1; [exact U1 | reflexivity]|].
+      assert (U2 : upinv (l_set_sent_time st1 created now (d_fup dev))) by (apply (benign_keeps st1 (SSetSentTime created now (d_fup dev))); auto).
+      assert (Tail : forall st2, upinv st2 -> ds_row st2 = ds_row st1 ->
+        alwaysA dninv st2
+          (if (length buf =? 0)%nat then Halt fin
+           else Do (SEmit {| dl_raw := buf; dl_radio := rx_radio rx; dl_gw := rx_gw rx; dl_rx1delay := 1; dl_eui := d_eui dev |} (d_fdn r0)) (fun _ => Halt fin)) acc).
+      { intros st2 Hu2 Hrow. destruct (length buf =? 0)%nat; cbn [alwaysA]; [split; now apply H1|].
+        split; [now apply H1|]. split; [cbn; split; now apply H1 | intros Hc; discriminate]. }
+      cbn [exec]. rewrite app_nil_r. split; [apply Tail; [exact U2 | reflexivity] | intros _; apply Tail; [exact U1 | reflexivity]].
     Qed.
 
     Lemma alwaysA_send_dn st dev rx created now fin acc :
-      dninv st acc -> downs fin = [] -> fcnt f < d_fup dev -> d_fup r0 <= d_fup dev -> d_fdn dev = d_fdn r0 ->
+      dninv0 st acc -> downs fin = [] -> fcnt f < d_fup dev -> d_fup r0 <= d_fup dev -> d_fdn dev = d_fdn r0 ->
       alwaysA dninv st (send_prog E D dev rx created now fin) acc.
     Proof.
       intros Hinv Hfin Hd1 Hd2 Hd3. unfold send_prog. cbn [alwaysA].
       assert (Fin : forall st' a, dninv st' a -> dninv st' (a ++ fin)).
       { intros st' a (Hu & r' & Hr & Hd). split; [exact Hu|]. exists r'. split; [exact Hr|]. rewrite downs_app, Hfin, app_nil_r. exact Hd. }
-      split; [exact Hinv|]. split; [|intros _; cbn; split; [exact Hinv | now apply Fin]].
-      pose proof (benign_keepsA st (SGetPhy (r_datr (rx_radio rx))) acc eq_refl Hinv) as H1.
+      pose proof (dn0 _ _ Hinv) as HinvD.
+      split; [exact HinvD|]. split; [|intros _; cbn; split; [exact HinvD | now apply Fin]].
+      pose proof (benign_keepsA0 st (SGetPhy (r_datr (rx_radio rx))) acc eq_refl Hinv) as H1.
       cbn [exec] in *. destruct (l_get_phy st (r_datr (rx_radio rx))) as [st1 g] eqn:Eg. cbn [fst snd] in H1. rewrite app_nil_r in *.
-      destruct g as [| |p]; cbn [alwaysA]; try (split; [exact H1 | now apply Fin]).
+      pose proof (dn0 _ _ H1) as H1D.
+      destruct g as [| |p]; cbn [alwaysA]; try (split; [exact H1D | now apply Fin]).
       assert (Hty : down_type (po_mtype p)).
       { destruct Hinv as ((Hfb & _) & _). unfold l_get_phy, fb_down in *. destruct (ds_fb st) as [fd|]; [|discriminate].
         destruct (_ && _ && _); [discriminate|]. destruct (0 <? _)%nat.
@@ -467,24 +491,24 @@ Section StepsProof.
     Qed.
 
     Lemma alwaysA_queue_dn st dev1 rx now fin acc :
-      dninv st acc -> downs fin = [] -> fcnt f < d_fup dev1 -> d_fup r0 <= d_fup dev1 -> d_fdn dev1 = d_fdn r0 ->
+      dninv0 st acc -> downs fin = [] -> fcnt f < d_fup dev1 -> d_fup r0 <= d_fup dev1 -> d_fdn dev1 = d_fdn r0 ->
       alwaysA dninv st (queue_prog E D dev1 f rx now fin) acc.
     Proof.
       intros Hinv Hfin Hd1 Hd2 Hd3. unfold queue_prog.
-      assert (After : forall st4, dninv st4 acc ->
+      assert (After : forall st4, dninv0 st4 acc ->
         alwaysA dninv st4
           (Do SGetNextUnsent (fun r => match r with
              | XMsg (Some m) => Do (SSetPayload (m_data m) (m_port m) (m_ack m)) (fun _ =>
                                 Do (SSetSentTime (m_created m) now (fcnt f)) (fun _ => send_prog E D dev1 rx (m_created m) now fin))
              | _ => send_prog E D dev1 rx 0 now fin end)) acc).
-      { intros st4 H4. cbn [alwaysA]. split; [exact H4|]. split; [|intros _; now apply alwaysA_send_dn].
+      { intros st4 H4. cbn [alwaysA]. split; [apply dn0; exact H4|]. split; [|intros _; now apply alwaysA_send_dn].
         cbn [exec]. rewrite app_nil_r. destruct (l_get_next_unsent st4) as [m|]; [|now apply alwaysA_send_dn].
-        cbn [alwaysA]. split; [exact H4|]. split; [|intros Hc; discriminate].
-        pose proof (benign_keepsA st4 (SSetPayload (m_data m) (m_port m) (m_ack m)) acc eq_refl H4) as H5. cbn [exec fst snd] in *. rewrite app_nil_r in *.
-        split; [exact H5|].
-        pose proof (benign_keepsA _ (SSetSentTime (m_created m) now (fcnt f)) acc eq_refl H5) as H6. cbn [exec fst snd] in H6. rewrite app_nil_r in H6.
+        cbn [alwaysA]. split; [apply dn0; exact H4|]. split; [|intros Hc; discriminate].
+        pose proof (benign_keepsA0 st4 (SSetPayload (m_data m) (m_port m) (m_ack m)) acc eq_refl H4) as H5. cbn [exec fst snd] in *. rewrite app_nil_r in *.
+        split; [apply dn0; exact H5|].
+        pose proof (benign_keepsA0 _ (SSetSentTime (m_created m) now (fcnt f)) acc eq_refl H5) as H6. cbn [exec fst snd] in H6. rewrite app_nil_r in H6.
         cbn [exec]. rewrite ?app_nil_r. split; [apply alwaysA_send_dn; assumption | intros _; apply alwaysA_send_dn; assumption]. }
-      assert (Acks : forall st3, dninv st3 acc ->
+      assert (Acks : forall st3, dninv0 st3 acc ->
         alwaysA dninv st3
           (if ack (fc f) then Do (SUpdateAckTime (fcnt f) now) (fun _ => Do SGetNextUnsent (fun r => match r with
              | XMsg (Some m) => Do (SSetPayload (m_data m) (m_port m) (m_ack m)) (fun _ =>
@@ -494,13 +518,13 @@ Section StepsProof.
              | XMsg (Some m) => Do (SSetPayload (m_data m) (m_port m) (m_ack m)) (fun _ =>
                                 Do (SSetSentTime (m_created m) now (fcnt f)) (fun _ => send_prog E D dev1 rx (m_created m) now fin))
              | _ => send_prog E D dev1 rx 0 now fin end))) acc).
-      { intros st3 H3. destruct (ack (fc f)); cbn [alwaysA]; (split; [exact H3|]); split; try (intros _; now apply After); cbn [exec]; rewrite app_nil_r; apply After.
-        - pose proof (benign_keepsA st3 (SUpdateAckTime (fcnt f) now) acc eq_refl H3) as H. cbn [exec fst snd] in H. now rewrite app_nil_r in H.
-        - pose proof (benign_keepsA st3 SResetAcks acc eq_refl H3) as H. cbn [exec fst snd] in H. now rewrite app_nil_r in H. }
+      { intros st3 H3. destruct (ack (fc f)); cbn [alwaysA]; (split; [apply dn0; exact H3|]); split; try (intros _; now apply After); cbn [exec]; rewrite app_nil_r; apply After.
+        - pose proof (benign_keepsA0 st3 (SUpdateAckTime (fcnt f) now) acc eq_refl H3) as H. cbn [exec fst snd] in H. now rewrite app_nil_r in H.
+        - pose proof (benign_keepsA0 st3 SResetAcks acc eq_refl H3) as H. cbn [exec fst snd] in H. now rewrite app_nil_r in H. }
       destruct (mtype f =? ConfirmedDataUp); [|now apply Acks].
-      cbn [alwaysA]. split; [exact Hinv|]. split; [|intros Hc; discriminate].
+      cbn [alwaysA]. split; [apply dn0; exact Hinv|]. split; [|intros Hc; discriminate].
       cbn [exec]. rewrite app_nil_r. apply Acks.
-      pose proof (benign_keepsA st (SSetAckFlag true) acc eq_refl Hinv) as H. cbn [exec fst snd] in H. now rewrite app_nil_r in H.
+      pose proof (benign_keepsA0 st (SSetAckFlag true) acc eq_refl Hinv) as H. cbn [exec fst snd] in H. now rewrite app_nil_r in H.
     Qed.
 
     Theorem alwaysA_uplink rx n now : fb_down st0 ->
@@ -509,8 +533,8 @@ Section StepsProof.
       intros Hfb0.
       assert (U0 : upinv st0).
       { split; [exact Hfb0|]. split; [reflexivity|]. exists r0. split; [exact Hrow0|]. split; [apply same_session_refl|]. split; [lia | now left]. }
-      assert (H0 : dninv st0 []) by (split; [exact U0|]; exists r0; split; [exact Hrow0 | left; now split]).
-      assert (Nil : forall st', dninv st' [] -> dninv st' ([] ++ [])) by (intros st' H; exact H).
+      assert (H00 : dninv0 st0 []) by (split; [exact U0|]; exists r0; split; [exact Hrow0 | now split]).
+      pose proof (dn0 _ _ H00) as H0.
       unfold uplink_prog. cbn [alwaysA]. split; [exact H0|]. split; [|intros _; cbn; tauto].
       cbn [exec app]. rewrite Hrow0. set (dev := load st0 r0).
       destruct (stale dev f) eqn:Est; [cbn; tauto|].
@@ -522,25 +546,27 @@ Section StepsProof.
       assert (Hd1 : d_fup dev1 = fcnt f + 1) by (cbn; rewrite N.mod_small; lia).
       apply N.leb_le in Hle. change (d_fup dev) with (d_fup r0) in Hle.
       cbn [alwaysA]. split; [exact H0|]. split; [|intros _; cbn; tauto].
-      cbn [exec app]. destruct (l_update_device_state st0 dev1) as [st1 [e|]] eqn:U.
-      { apply uds_fail in U. subst st1. cbn. tauto. }
-      apply uds_row in U. destruct U as (rr & R0 & R1 & R2 & R3 & R4 & R5). rewrite Hrow0 in R0. injection R0 as <-.
+      cbn [exec app]. destruct (l_advance_fup st0 _ _ _) as [st1 [e|]] eqn:U.
+      { apply adv_fail in U. destruct U as [-> ->]. change (d_relaxed dev) with (d_relaxed r0). rewrite Hstrict. cbn. tauto. }
+      apply adv_row in U. destruct U as (rr & R0 & _ & R1 & R2 & R3 & R4 & R5). rewrite Hrow0 in R0. injection R0 as <-.
       assert (U1 : upinv st1).
       { split; [unfold fb_down in *; now rewrite R5|]. split; [exact R4|]. eexists. split; [exact R1|].
-        split; [unfold same_session; cbn; tauto|]. split; [cbn [d_fup]; change (d_fup r0 <= d_fup dev1); rewrite Hd1; lia | left; exact R2]. }
-      assert (H1 : dninv st1 []) by (split; [exact U1|]; eexists; split; [exact R1 | left; now split]).
+        split; [unfold same_session; cbn; tauto|]. split; [cbn [d_fup]; rewrite N.mod_small by lia; lia | left; exact R2]. }
+      assert (H10 : dninv0 st1 []) by (split; [exact U1|]; eexists; split; [exact R1 | now split]).
+      pose proof (dn0 _ _ H10) as H1.
       cbn [alwaysA]. split; [exact H1|]. split; [|intros _; cbn; tauto].
       cbn [exec app]. destruct (l_create_upstream st1 _) as [st2 [e|]] eqn:C.
       { assert (st2 = st1) by (unfold l_create_upstream in C; destruct (existsb _ _); inversion C; reflexivity). subst. cbn. tauto. }
-      assert (H2 : dninv st2 []).
+      assert (H20 : dninv0 st2 []).
       { unfold l_create_upstream in C. destruct (existsb _ _); [discriminate|]. injection C as <-. split.
         - destruct U1 as (F1 & N1 & r' & Hr' & S1 & L1 & _). split; [exact F1|]. split; [exact N1|]. exists r'. split; [exact Hr'|].
           split; [exact S1|]. split; [exact L1|]. right. split; [eexists; cbn; rewrite R2; reflexivity|].
-          rewrite R1 in Hr'. injection Hr' as <-. cbn [d_fup]. change (fcnt f < d_fup dev1). rewrite Hd1. lia.
-        - eexists. split; [exact R1 | left; now split]. }
+          rewrite R1 in Hr'. injection Hr' as <-. cbn [d_fup]. rewrite N.mod_small by lia. lia.
+        - eexists. split; [exact R1 | now split]. }
+      pose proof (dn0 _ _ H20) as H2.
       cbn [alwaysA]. split; [exact H2|]. split; [|intros _; cbn; tauto].
       cbn [exec app]. destruct (has_app apps (d_appeui dev1)); [|cbn; tauto].
-      apply alwaysA_queue_dn; [exact H2 | reflexivity | rewrite Hd1; lia | rewrite Hd1; lia | reflexivity].
+      apply alwaysA_queue_dn; [exact H20 | reflexivity | rewrite Hd1; lia | rewrite Hd1; lia | reflexivity].
     Qed.
 
     (* C10, downlink clause: wherever the handler is cut and whatever fails, if a frame has left for the
@@ -596,25 +622,20 @@ Section StepsProof.
     Proof.
       intros Hi Hs. unfold enc_data_prog.
       assert (J : forall a, joininv st a) by (intros a; split; [exact Hi | now left]).
-      destruct (encode_message E _ _ _); cbn [alwaysA]; try (split; apply J).
-      split; [apply J|].
-      assert (Tail : forall st1 a1, ds_inbox st1 = ds_inbox st0 -> stored st1 ->
-        alwaysA joininv st1
-          (Do (SUpdateState (set_counters dev (d_fup dev) ((d_fdn dev + 1) mod 65536) (d_keywarn dev))) (fun r =>
-             match r with
-             | XErr None => if (length a =? 0)%nat then Halt []
-                            else Do (SEmit {| dl_raw := a; dl_radio := rx_radio rx; dl_gw := rx_gw rx; dl_rx1delay := 1; dl_eui := d_eui dev |} (d_fdn dev)) (fun _ => Halt [])
-             | _ => Halt [] end)) a1).
-      { intros st1 a1 Hi1 Hs1.
-        assert (J1 : forall a, joininv st1 a) by (intros a0; split; [exact Hi1 | now left]).
-        cbn [alwaysA]. split; [apply J1|]. split; [|intros _; cbn; split; apply J1].
-        cbn [exec]. destruct (l_update_device_state st1 _) as [st2 [e|]] eqn:U.
-        - apply uds_fail in U. subst. cbn. split; apply J1.
-        - apply uds_row in U. destruct U as (r1 & _ & _ & R2 & _ & R4 & _).
-          assert (J2 : forall a0, joininv st2 a0) by (intros a0; now apply (joininv_stored st1)).
-          destruct (length a =? 0)%nat; cbn [alwaysA]; [split; apply J2|].
-          split; [apply J2|]. split; [cbn; split; apply J2 | intros Hc; discriminate]. }
-      split; [apply Tail; [exact Hi | exact Hs] | intros _; apply Tail; [exact Hi | exact Hs]].
+      destruct (encode (downlink_frame dev p 0)); cbn [alwaysA]; try (split; apply J).
+      split; [apply J|]. split; [|intros _; cbn; split; apply J].
+      cbn [exec]. destruct (l_next_fdn st) as [st1 [cn|]] eqn:U.
+      2:{ apply next_none in U. destruct U as [-> _]. cbn. split; apply J. }
+      apply next_row in U. destruct U as (r1 & _ & _ & _ & R2 & _ & R4 & _).
+      assert (J1 : forall a0, joininv st1 a0) by (intros a0; now apply (joininv_stored st)).
+      destruct (encode_message E _ _ _) as [buf|e|]; cbn [alwaysA]; try (split; apply J1).
+      split; [apply J1|].
+      assert (J2 : forall a0, joininv (l_set_sent_time st1 c now (d_fup dev)) a0) by (intros a0; now apply (joininv_stored st1); try reflexivity; [congruence | now apply (stored_keep st)]).
+      cbn [exec]. split.
+      - destruct (length buf =? 0)%nat; cbn [alwaysA]; [split; apply J2|].
+        split; [apply J2|]. split; [cbn; split; apply J2 | intros Hc; discriminate].
+      - intros _. destruct (length buf =? 0)%nat; cbn [alwaysA]; [split; apply J1|].
+        split; [apply J1|]. split; [cbn; split; apply J1 | intros Hc; discriminate].
     Qed.
     Lemma alwaysA_send st dev rx c now acc : ds_inbox st = ds_inbox st0 -> stored st ->
       alwaysA joininv st (send_prog E D dev rx c now []) acc.
